@@ -300,3 +300,17 @@ package annotation
 //@   prop C11
 //@   structural
 
+
+// moveElementInRelationships (C13: moving an element updates the reference in EVERY partner): the only
+// successful return is the one after the loop over all foreign partner blocks - a block whose partner list
+// cannot be found is skipped with a logged error, but nothing ends the walk early with success.
+//@ func Data.moveElementInRelationships
+//@   prop C13
+//@   requires d != nil
+//@   safety_off
+//@   calls_havoc
+//@   modifies *
+//@   ghost walked bool = false
+//@   ghostset at "return nil": walked = true
+//@   ensures result == nil ==> walked
+//@   assert at "return nil": forall k dvid.IZYXString :: has(relBlocks, k) ==> visited2[k]
